@@ -103,7 +103,7 @@ def genHybrid (m : Model) (π : DepOrder) (removeUnused : Bool) (delta : Expr) (
   let used := mentioned m
   let keep : Name → Bool := fun x => !removeUnused || used.contains x
   pure (unpackStates L (fun _ => true) ++ unpackParams L keep ++ unpackMissing L ++
-    bodyCounter m order (rlStore (fun s => stiff.contains s) delta) 0 order)
+    bodySlots m L (rlStore (fun s => stiff.contains s) delta) order)
 
 /-- `schemes.generalized_rush_larsen` (a second copy of the same loop in the source) -/
 def genGRL (m : Model) (π : DepOrder) (removeUnused : Bool) (delta : Expr) : Option (List Stmt) := do
@@ -112,7 +112,7 @@ def genGRL (m : Model) (π : DepOrder) (removeUnused : Bool) (delta : Expr) : Op
   let used := mentioned m
   let keep : Name → Bool := fun x => !removeUnused || used.contains x
   pure (unpackStates L (fun _ => true) ++ unpackParams L keep ++ unpackMissing L ++
-    bodyCounter m order (rlStore (fun _ => true) delta) 0 order)
+    bodySlots m L (rlStore (fun _ => true) delta) order)
 
 /-- `sympytools.rhs_matrix`: substitute intermediates simultaneously until none is left,
 at most `maxTries` times; `none` = "Maximum number of tries used" (the loop
